@@ -253,6 +253,11 @@ def main(argv):
                                    {"stderr": errtxt[-4000:], "group": gname, "variant": g["variant"],
                                     "worker": w, "k": -1}))
 
+        # property-level checks on the merged counters (rates, conservation)
+        if hasattr(mod, "post_check") and not replay:
+            for key, msg in mod.post_check(counters, maxima, tier):
+                violations.append((key, msg, {"group": "post", "variant": "-", "worker": 0, "k": -1, "counters": counters}))
+
         # classify violations against known findings
         os.makedirs(os.path.join(HERE, "replays"), exist_ok=True)
         new_v, known_hits = [], {}
